@@ -163,7 +163,7 @@ func buildDurationLabelFilter(pred *logql.DurationFilter) (Processor, error) {
 func (lf *DurationLabelFilter[C]) Process(_ otelstorage.Timestamp, line string, set LabelSet) (_ string, keep bool) {
 	v, ok := set.GetString(lf.name)
 	if !ok {
-		return "", false
+		return line, false
 	}
 
 	labelValue, err := time.ParseDuration(v)
@@ -225,7 +225,7 @@ func buildBytesLabelFilter(pred *logql.BytesFilter) (Processor, error) {
 func (lf *BytesLabelFilter[C]) Process(_ otelstorage.Timestamp, line string, set LabelSet) (_ string, keep bool) {
 	v, ok := set.GetString(lf.name)
 	if !ok {
-		return "", false
+		return line, false
 	}
 
 	labelValue, err := humanize.ParseBytes(v)
@@ -292,7 +292,7 @@ func (lf *NumberLabelFilter[C]) Process(_ otelstorage.Timestamp, line string, se
 		return line, true
 	case !ok:
 		// No such label, skip the line.
-		return "", false
+		return line, false
 	default:
 		keep = lf.cmp.Compare(val, lf.value)
 		return line, keep
@@ -317,7 +317,7 @@ func buildIPLabelFilter(pred *logql.IPFilter) (Processor, error) {
 func (lf *IPLabelFilter) Process(_ otelstorage.Timestamp, line string, set LabelSet) (_ string, keep bool) {
 	v, ok := set.GetString(lf.name)
 	if !ok {
-		return "", false
+		return line, false
 	}
 
 	labelValue, err := netip.ParseAddr(v)
